@@ -679,3 +679,12 @@ T("C01", "tag-only-message-concatenated", PL, '        return b"".join((self.tag
 T("C13", "command-status-test-spelled-out", PB, "        if self.command_status not in (None, SUCCESS):", "        if self.command_status is not None and self.command_status != SUCCESS:")
 T("C01", "member-segments-extended", PU, '        segments += [LogicalSegment(int(idx), "member_id") for idx in index]\n\n        for attr in attrs:', '        segments.extend(LogicalSegment(int(idx), "member_id") for idx in index)\n\n        for attr in attrs:')
 T("C02", "mask-size-lookup-split", PL, '        self._mask_size = getattr(DataTypes.get(self.data_type), "size", None)', '        _dt = DataTypes.get(self.data_type)\n        self._mask_size = _dt.size if _dt is not None else None')
+# ------------------------------------------------------------------ Dn.R / D5.14
+M("C05", "udt-cache-test-inverted", LX, '        if instance_id not in self._cache["id:udt"]:', '        if instance_id in self._cache["id:udt"]:', ["D5.14"])
+M("C05", "udt-template-error-test-inverted", LX, '                if not template.get("error"):', '                if template.get("error"):', ["D5.14"])
+M("C05", "udt-definition-not-cached", LX, '                    self._cache["id:udt"][instance_id] = data_type\n', "", ["D5.14"])
+M("C05", "struct-makeup-not-cached", LX, '            self._cache["id:struct"][instance_id] = _struct\n', "", ["D5.14"])
+M("C05", "symbol-list-reply-guard-inverted", LX, '                if not response:\n                    raise ResponseError(\n                        f"send_unit_data returned not valid data - {response.error}"', '                if response:\n                    raise ResponseError(\n                        f"send_unit_data returned not valid data - {response.error}"', ["D5.R"])
+M("C14", "plc-name-reply-guard-inverted", LX, "            if not response:\n                raise ResponseError(f\"response did not return valid data - {response.error}\")\n\n            self._info[\"name\"]", "            if response:\n                raise ResponseError(f\"response did not return valid data - {response.error}\")\n\n            self._info[\"name\"]", ["D14.R"])
+M("C05", "makeup-attributes-guard-inverted", LX, '    if not response:\n        structure["error"] = response.error\n        return', '    if response:\n        structure["error"] = response.error\n        return', ["D5.R"])
+T("C05", "udt-cache-test-positive-form", LX, '        if instance_id not in self._cache["id:udt"]:', '        if not (instance_id in self._cache["id:udt"]):')
